@@ -55,7 +55,8 @@ def run_scan(events, interval_ms, idle, pre_events=None, bauds=(115200, None)):
     def read(n):
         if port.rx:
             return orig_read(n)
-        clock.ms += idle
+        # a read that gets nothing lasts as long as the port's read timeout (the 100 ms idle time stands for it)
+        clock.ms += idle if idle != 100 else int(round((port.timeout if port.timeout is not None else 0.1) * 1000))
         return b''
     port.read = read
     n0 = len(port.rx)
@@ -145,7 +146,7 @@ def check(tier, seed):
             if bi % 3 == 0:
                 cutf = G.frame(6, 1, b'\x01\x02\x03')
                 pre = [(bytes([b]), 1) for b in rng.choice([cutf[:-3], cutf + cutf[:5], b'$GPRMC,1*', G.nmea(b'GPGGA,7') + b'$GP', b'\xb5\x62\x0a\x04\xe8\x03'])]
-            bauds = (rng.choice([1200, 1200, 9600, 115200, 921600]), rng.choice([None, 9600, 115200, 460800]))
+            bauds = (rng.choice([1200, 1200, 9600, 115200, 921600]), rng.choice([None, 1200, 2400, 4800, 9600, 115200, 460800]))
             r, t, fl = run_scan(events, interval, idle, pre, bauds)
             evtok = ','.join(('N' if d is None else C.hexs(d)) + f'@{dt}' for d, dt in events) or '-'
             cmd = f'scan {interval} {idle} {evtok}'
